@@ -104,6 +104,15 @@ theorem coh_logCall {u : User α ε} {s : St α} (k : CallKind) (a : Vec α)
     (h : Coh u.toSFUser s.sf) : Coh u.toSFUser (s.logCall k a).sf := by
   simpa [St.logCall, Coh] using h
 
+theorem stopTests_frame' {c : Cfg α} {s s' : St α} {f0Old : α} {stop : Bool}
+    (h : stopTests c s f0Old = (s', stop)) :
+    s'.f = s.f ∧ s'.cbStates = s.cbStates ∧ s'.x = s.x ∧ s'.g = s.g ∧ s'.sf = s.sf ∧
+      s'.nit = s.nit := by
+  unfold stopTests at h
+  split at h
+  · injection h with h1 _; subst h1; exact ⟨rfl, rfl, rfl, rfl, rfl, rfl⟩
+  · split at h <;> (injection h with h1 _; subst h1; exact ⟨rfl, rfl, rfl, rfl, rfl, rfl⟩)
+
 /-- summary of `afterEval` -/
 structure AfterEval (u : User α ε) (s s' : St α) (stop : Bool) : Prop where
   coh : Coh u.toSFUser s'.sf
